@@ -229,7 +229,7 @@ class VCGen(SpecMixin, CallMixin, StmtMixin, ExprMixin, Engine):
             goals.append(goal)
             what.append('%s.%s' % key)
         for g in sorted(fs.ghost):
-            if g in mods['ghosts']:
+            if g in mods['ghosts'] or g in self.spec.local_ghosts:
                 continue
             now = fs.ghost[g]
             was = self.ghost_get(entry, g)
@@ -238,6 +238,11 @@ class VCGen(SpecMixin, CallMixin, StmtMixin, ExprMixin, Engine):
             goals.append(self.eq(fs, now, was))
             what.append('ghost ' + g)
         if goals:
+            import os as _os
+            if _os.environ.get('PYVC_SPLIT_FRAME'):
+                for g_, w_ in zip(goals, what):
+                    self.add_vc(label + '<' + w_ + '>', 'frame', fs, g_, fi.node, note=w_)
+                return
             self.add_vc(label, 'frame', fs, zand(goals), fi.node,
                         note='modifies clause does not list: ' + ', '.join(what))
 
